@@ -1020,6 +1020,11 @@ def mpf_acosh(x, prec, rnd=round_fast):
     wp = prec + 15
     if mpf_cmp(x, fone) == -1:
         raise ComplexResult("acosh(x) is real only for x >= 1")
+    # For x close to 1, x**2-1 and log(1+t) with t = x-1+q are only as
+    # accurate as the sums x*x-1 and 1+t, which need -mag(x-1) more bits
+    tsign, tman, texp, tbc = mpf_sub(x, fone, 10)
+    if tman and texp+tbc < 0:
+        wp += -(texp+tbc)
     q = mpf_sqrt(mpf_add(mpf_mul(x,x), fnone, wp), wp)
     return mpf_log(mpf_add(x, q, wp), prec, rnd)
 
